@@ -29,6 +29,9 @@ type area struct {
 
 var areas = map[string]*area{}
 
+// genArg: an optional free-form argument of `gen` (-arg), for generators that produce one of several streams on request
+var genArg string
+
 func register(name string, a *area) { areas[name] = a }
 
 // ---- splitmix64: every random choice of a run derives from one seed
@@ -148,7 +151,9 @@ func main() {
 	tier := fs.String("tier", "quick", "")
 	in := fs.String("in", "", "")
 	out := fs.String("out", "", "")
+	arg := fs.String("arg", "", "")
 	fs.Parse(os.Args[3:])
+	genArg = *arg
 	switch os.Args[2] {
 	case "gen":
 		w := newLineWriter(*out)
